@@ -310,6 +310,20 @@ class Exec:
                 ch = ch[1:]
             bk, fam, idx = self.lval(ch[0], env)
             i = self.ev(ch[1], env)
+            if fam is None and bk in env:
+                # a pointer that holds the address of an array element: p[i] is a[off + i]
+                pv = env[bk]
+
+                def shift(q):
+                    if q[0] == "addrix":
+                        off = q[2]
+                        return q[1], (T("int", off[1] + i[1]) if off[0] == "int" and i[0] == "int" else T("bin", "+", off, i))
+                    return None, None
+                if pv[0] == "addrix":
+                    bk, i = shift(pv)
+                elif pv[0] == "ite" and pv[2][0] == "addrix" and pv[3][0] == "addrix" and pv[2][1] == pv[3][1]:
+                    bk = pv[2][1]
+                    i = ite(pv[1], shift(pv[2])[1], shift(pv[3])[1])
             return (bk + "[" + render(i) + "]", (fam or bk) + "[]", T("ix", *idx[1:], i))
         raise Shape(f"gen_pitzer: unsupported lvalue {k}")
 
@@ -326,14 +340,36 @@ class Exec:
             if key in env:
                 return env[key]
             return T("sym", key)
+        def concrete(ix):
+            return all(q[0] == "int" for q in ix[1:])
         if fam in env:
             arr = env[fam]
-            # sel(store(a, i, v), i) = v
-            if arr[0] == "store" and arr[2] is idx:
-                return arr[3]
+            # sel(store(a, i, v), i) = v ; a store at a different constant index is transparent
+            while arr[0] == "store":
+                if arr[2] is idx:
+                    return arr[3]
+                if concrete(idx) and concrete(arr[2]):
+                    arr = arr[1]
+                    continue
+                break
             if arr[0] == "fam":
                 return T("sym", key)
             return T("sel", arr, idx)
+        base = fam[:-2] if fam.endswith("[]") else None
+        if base in env and env[base][0] == "call" and env[base][1] == "init" and len(idx) == 2:
+            tab = env[base][2:]
+
+            def elem(q):
+                if q[0] == "int" and 0 <= q[1] < len(tab):
+                    return tab[q[1]]
+                if q[0] == "ite":
+                    a, b = elem(q[2]), elem(q[3])
+                    if a is not None and b is not None:
+                        return ite(q[1], a, b)
+                return None
+            v = elem(idx[1])
+            if v is not None:
+                return v
         return T("sym", key)
 
     def guard(self, env):
@@ -412,6 +448,14 @@ class Exec:
                 self.write(key, fam, idx, T("bin", "+" if op == "++" else "-", old, T("int", 1)), env)
                 return old if n.get("isPostfix") else self.read(key, fam, idx, env)
             if op == "&":
+                b = a
+                while b["kind"] in SKIP:
+                    b = self.kids(b)[0]
+                if b["kind"] == "ArraySubscriptExpr":
+                    ch = self.kids(b)
+                    bk, fam, idx = self.lval(ch[0], env)
+                    if fam is None:
+                        return T("addrix", bk, self.ev(ch[1], env))
                 key, fam, idx = self.lval(a, env)
                 return T("addr", T("sym", key))
             if op == "+":
@@ -431,7 +475,10 @@ class Exec:
             if op == ",":
                 self.ev(l, env)
                 return self.ev(r, env)
-            return T("bin", op, self.ev(l, env), self.ev(r, env))
+            a, b = self.ev(l, env), self.ev(r, env)
+            if a[0] == "int" and b[0] == "int" and op in ("+", "-", "*"):
+                return T("int", {"+": a[1] + b[1], "-": a[1] - b[1], "*": a[1] * b[1]}[op])
+            return T("bin", op, a, b)
         if k == "CompoundAssignOperator":
             l, r = self.kids(n)
             key, fam, idx = self.lval(l, env)
@@ -674,12 +721,42 @@ class Exec:
                 step = b["opcode"]
             else:
                 step = "step:" + render(self.ev(inc, dict(env)))
-        self.depth += 1
-        d = self.depth
-        kv = T("sym", f"$k{d}")
         start = env.get(var, T("sym", var)) if var else T("sym", "-")
         if start[0] == "ite" and start[1] is g0:
             start = start[2]          # the value the initialisation just stored (the loop only runs when the guard holds)
+        # a loop over a constant range of at most 64 values is executed value by value
+        if var and start[0] == "int" and step in ("++", "--") and cond and cond.get("kind"):
+            c = cond
+            while c["kind"] in SKIP:
+                c = self.kids(c)[0]
+            if c["kind"] == "BinaryOperator" and c.get("opcode") in ("<", "<=", ">", ">="):
+                probe = dict(env)
+                probe[var] = T("sym", "$probe")
+                l, r = self.ev(self.kids(c)[0], probe), self.ev(self.kids(c)[1], probe)
+                if l is T("sym", "$probe") and r[0] == "int":
+                    op, bound, v, vals = c["opcode"], r[1], start[1], []
+                    holds = {"<": lambda a: a < bound, "<=": lambda a: a <= bound, ">": lambda a: a > bound, ">=": lambda a: a >= bound}[op]
+                    while holds(v) and len(vals) <= 64:
+                        vals.append(v)
+                        v += 1 if step == "++" else -1
+                    if len(vals) <= 64:
+                        self.brk.append("loop")
+                        saved_live, saved_brk = env.get("$live", TRUE), env.pop("$break", None)
+                        for v in vals:
+                            env[var] = T("int", v)
+                            env["$live"] = saved_live
+                            self.stmt(body, env)
+                            if env.get("$break") is not None:
+                                raise Shape("gen_pitzer: break inside a loop over a constant range")
+                        env["$live"] = saved_live
+                        if saved_brk is not None:
+                            env["$break"] = saved_brk
+                        self.brk.pop()
+                        env[var] = T("sym", "$after-loop")
+                        return
+        self.depth += 1
+        d = self.depth
+        kv = T("sym", f"$k{d}")
         e0 = dict(env)
         if var:
             e0[var] = kv
@@ -715,7 +792,7 @@ class Exec:
             if upd is T("prev", key, d):
                 continue
             init_v = env.get(key, self.initial(key))
-            val = T("fold", dom, init_v, upd, exitc)
+            val = T("fold", dom, init_v, upd, exitc, key)
             env[key] = ite(g, val, init_v)
             if self.writes is not None:
                 self.writes.add(key)
@@ -789,6 +866,9 @@ class Exec:
         env = {}
         for c in self.fdecl.get("inner", []):
             if c.get("kind") == "ParmVarDecl" and "name" in c:
+                qt = c.get("type", {}).get("qualType", "")
+                if qt.endswith("&") and not qt.startswith("const"):
+                    continue              # a reference parameter is a place the caller sees
                 self.locals.add(c["name"])
         body = [c for c in self.fdecl["inner"] if c.get("kind") == "CompoundStmt"][0]
         self.stmt(body, env)
@@ -838,54 +918,63 @@ def normal_forms(cpp, name, keep=None, drop=None):
 
 # ------------------------------------------------------------------------------------------------------------- tables
 def extract():
+    """-> (tables of rendered normal forms that stay listed, generated Lean definitions)"""
     root = vlib.REPO / "src" / "phreeqcpp"
     pz, st, md, rd = root / "pitzer.cpp", root / "sit.cpp", root / "model.cpp", root / "read.cpp"
     jobs = {
-        "pitzerNF": (pz, "pitzer", None, r"^(\$calls|CONV)$"),
-        "gNF": (pz, "G", None, None),
-        "gpNF": (pz, "GP", None, None),
-        "ethetasNF": (pz, "ETHETAS", None, r"^\$calls$"),
-        "calcParamNF": (pz, "calc_pitz_param", r"^pz_ptr->p$", None),
-        "sitNF": (st, "sit", None, r"^\$calls$"),
-        "calcSitParamNF": (st, "calc_sit_param", r"^pz_ptr->p$", None),
-        "gammasNF": (md, "gammas", r"^(s_x\[\]->lg|a_llnl|b_llnl|bdot_llnl|\$ret)$", None),
-        "tidyNF": (pz, "pitzer_tidy", r"ln_coef|os_coef|->alpha", None),
-        "readSpeciesNF": (rd, "read_species", r"gflag|->dha|->dhb", None),
+        "pitzer": (pz, "pitzer", None, r"^(\$calls|CONV)$"),
+        "G": (pz, "G", None, None),
+        "GP": (pz, "GP", None, None),
+        "ETHETAS": (pz, "ETHETAS", None, r"^\$calls$"),
+        "calc_pitz_param": (pz, "calc_pitz_param", r"^pz_ptr->p$", None),
+        "sit": (st, "sit", None, r"^\$calls$"),
+        "calc_sit_param": (st, "calc_sit_param", r"^pz_ptr->p$", None),
+        "gammas": (md, "gammas", r"^(s_x\[\]->lg|a_llnl|b_llnl|bdot_llnl|\$ret)$", None),
+        "pitzer_tidy": (pz, "pitzer_tidy", r"ln_coef|os_coef|->alpha", None),
+        "read_species": (rd, "read_species", r"gflag|->dha|->dhb", None),
+        "ETHETA_PARAMS": (pz, "ETHETA_PARAMS", r"^(JAY|JPRIME)$", None),
     }
-
-    def one(item):
-        tab, (cpp, fn, keep, drop) = item
-        return tab, normal_forms(cpp, fn, keep, drop)
-    with concurrent.futures.ThreadPoolExecutor(max_workers=8) as pool:
-        res = dict(pool.map(one, jobs.items()))
+    with concurrent.futures.ThreadPoolExecutor(max_workers=10) as pool:
+        nfs = dict(zip(jobs, pool.map(lambda j: normal_forms(*j), jobs.values())))
+    # normal forms that stay compared with a listed expectation: the assembly of the loops (what the generated
+    # definitions below do not cover)
+    listed = {"pitzerNF": nfs["pitzer"], "sitNF": nfs["sit"],
+              "gammasNF": {k: v for k, v in nfs["gammas"].items() if k != "s_x[]->lg"},
+              "tidyNF": nfs["pitzer_tidy"], "readSpeciesNF": nfs["read_species"]}
     tabs = {}
-    for tab, nf in res.items():
-        rows = {}
-        for key, v in nf.items():
-            if tab == "gammasNF" and key == "s_x[]->lg":
-                # one row per aqueous gflag case; the exchange (4) and surface (6) branches are outside the model
-                cases = case_split(v, {"0", "1", "2", "3", "5", "7", "8", "9"})
-                if len(cases) != 8:
-                    raise Shape("gen_pitzer: gammas(): the gflag switch was not recognised")
-                for lab, cv in cases.items():
-                    rows[f"s_x[]->lg | gflag {lab}"] = render_shared(cv)
-            else:
-                rows[key] = render_shared(v)
+    for tab, nf in listed.items():
+        rows = {key: render_shared(v) for key, v in nf.items()}
         if not rows:
             raise Shape(f"gen_pitzer: nothing recognised for {tab}")
         tabs[tab] = sorted(rows.items())
-    return tabs
+    defs = []
+    defs += gammas_defs(nfs["gammas"])
+    defs.append(emit_num("g_src", nfs["G"]["$ret"], "Pitzer")[0])
+    defs.append(emit_num("gp_src", nfs["GP"]["$ret"], "Pitzer")[0])
+    defs.append(emit_num("calc_param_src", nfs["calc_pitz_param"]["pz_ptr->p"], "Pitzer")[0])
+    defs.append(emit_num("calc_sit_param_src", nfs["calc_sit_param"]["pz_ptr->p"], "Pitzer")[0])
+    defs.append(emit_num("etheta_src", nfs["ETHETAS"]["*etheta"], "Pitzer")[0])
+    defs.append(emit_num("ethetap_src", nfs["ETHETAS"]["*ethetap"], "Pitzer")[0])
+    defs.append(emit_num_shared("jay_src", nfs["ETHETA_PARAMS"]["JAY"], "Pitzer"))
+    defs.append(emit_num_shared("jprime_src", nfs["ETHETA_PARAMS"]["JPRIME"], "Pitzer"))
+    defs += pitzer_defs(nfs["pitzer"])
+    defs += sit_defs(nfs["sit"])
+    return tabs, defs
 
 
 def lean_str(s):
     return '"' + s.replace("\\", "\\\\").replace('"', '\\"') + '"'
 
 
-def render_lean(tabs):
-    out = ["/-! Generated by tools/gen_pitzer.py from src/phreeqcpp/{pitzer,sit,model,read}.cpp — do not edit.",
-           "Data-flow normal forms (operator trees of the stored quantities) of the activity-coefficient code that",
-           "Model/Gamma.lean and Model/Pitzer.lean transcribe. -/",
-           "namespace PhreeqcVerif.Gen.GammaSrc", ""]
+def render_lean(tabs, defs):
+    out = ["import PhreeqcVerif.Model.Gamma", "import PhreeqcVerif.Model.Pitzer",
+           "/-! Generated by tools/gen_pitzer.py from src/phreeqcpp/{pitzer,sit,model,read}.cpp — do not edit.",
+           "(1) Definitions produced mechanically from the data-flow normal forms of the source: the operator tree of a stored",
+           "    quantity as a term over `[NumOps α]`; every non-arithmetic sub-tree (a variable, an array element, the result of",
+           "    a loop) is a parameter, listed in the doc comment.  `Properties/C16.lean` proves them equal to the hand models.",
+           "(2) Rendered normal forms of the loop assemblies that are compared with a listed expectation. -/",
+           "namespace PhreeqcVerif.Gen.GammaSrc", "open PhreeqcVerif NumOps", ""]
+    out += defs
     for k, v in tabs.items():
         out.append(f"def {k} : List (String × String) := [")
         out.append(",\n".join("  (" + lean_str(a) + ", " + lean_str(b) + ")" for a, b in v))
@@ -895,19 +984,484 @@ def render_lean(tabs):
 
 
 def generate(ctx=None):
-    tabs = extract()
-    text = render_lean(tabs)
+    tabs, defs = extract()
+    text = render_lean(tabs, defs)
     out = vlib.LEAN / "PhreeqcVerif" / "Gen" / "GammaSrc.lean"
     if not out.exists() or out.read_text() != text:
         out.write_text(text)
-    return {k: len(v) for k, v in tabs.items()}
+    return dict({k: len(v) for k, v in tabs.items()}, generated_definitions=len(defs))
+
+
+
+
+# =====================================================================================================================
+# Lean terms from trees
+# =====================================================================================================================
+from decimal import Decimal          # noqa: E402
+from fractions import Fraction       # noqa: E402
+
+NONNUM = re.compile(r"size\(|->type\b|\bICON\b|IPRSNT|use_etheta|->in\b|NULL|_model\b|^\$k\d$|ilast|ifirst|->gflag|calculating_deriv")
+ARITH = {"+", "-", "*", "/"}
+REL = {"<", "<=", ">", ">=", "==", "!="}
+FUNS = {"sqrt": "sqrt", "exp": "exp", "log": "ln", "log10": "log10"}
+PK = r"(?:pitz|sit)_params\[param_list\[\$k1\]\]"
+NICE = [(r"^sel\(.*IPRSNT.*ispec\[2\]\]\) == 0\)$", "absent_i2"),
+        (r"^sel\(.*M\[\].*\[" + PK + r"->ispec\[0\]\]\)$", "m_i0"), (r"^sel\(.*M\[\].*\[" + PK + r"->ispec\[1\]\]\)$", "m_i1"),
+        (r"^sel\(.*M\[\].*\[" + PK + r"->ispec\[2\]\]\)$", "m_i2"),
+        (r"^spec\[" + PK + r"->ispec\[0\]\]->z$", "z_i0"), (r"^spec\[" + PK + r"->ispec\[1\]\]->z$", "z_i1"),
+        (r"^" + PK + r"->p$", "p"), (r"^" + PK + r"->alpha$", "alpha"), (r"^" + PK + r"->os_coef$", "os"),
+        (r"^" + PK + r"->ln_coef\[0\]$", "lnc0"), (r"^" + PK + r"->ln_coef\[1\]$", "lnc1"), (r"^" + PK + r"->ln_coef\[2\]$", "lnc2"),
+        (r"^" + PK + r"->thetas->etheta$", "etheta"), (r"^" + PK + r"->thetas->ethetap$", "ethetap"),
+        (r"^fold\(.*step \(\$prev1\{\w+\} \+ \(sel\(.*fabs\(spec\[s_list\[\$k1\]\]->z\)\)\)\)$", "bigZ"),
+        (r"^\[?" + PK + r"->ispec\[0\]\]?$", "i0"), (r"^\[?" + PK + r"->ispec\[1\]\]?$", "i1"), (r"^\[?" + PK + r"->ispec\[2\]\]?$", "i2"),
+        (r"^\(use_etheta == 1\)$", "use_etheta")]
+
+
+def lit_of(v):
+    """decimal literal of the source as `lit (n / 10^k)` (unreduced, the way the models write them)"""
+    d = Decimal(repr(v)) if isinstance(v, float) else Decimal(v)
+    sign, digits, exp = d.as_tuple()
+    n = int("".join(map(str, digits)))
+    if exp >= 0:
+        n *= 10 ** exp
+        den = 1
+    else:
+        den = 10 ** (-exp)
+        while den > 1 and n % 10 == 0:
+            n //= 10
+            den //= 10
+    body = str(n) if den == 1 else f"({n} / {den})"
+    t = f"(lit {body})"
+    return f"(-{t})" if sign else t
+
+
+class LeanEmit:
+    """one generated definition: the numeric tree as a term over `[NumOps α]`, every non-arithmetic sub-tree (a variable,
+    an array element, the result of a loop …) a parameter"""
+
+    def __init__(self, home, cuts=None):
+        self.home = home
+        self.atoms = []        # (node, name, type, text)
+        self.names = set()
+        self.cuts = cuts or {}   # id(node) -> parameter name: sub-trees that are parameters of this definition
+
+    def atom(self, e, typ):
+        for n, name, t, _ in self.atoms:
+            if n is e:
+                return name
+        text = render(e)
+        name = self.cuts.get(id(e))
+        for rx, nm in NICE:
+            if name is None and re.search(rx, text, re.S):
+                name = nm
+        if name is None:
+            san = re.sub(r"[^A-Za-z0-9]+", "_", text.replace("$prev1", "old").replace("$k", "k")).strip("_")
+            name = san if (0 < len(san) <= 28 and not san[0].isdigit()) else None
+        if name is None or name in self.names or name in ("at", "in", "end", "fun", "do", "open", "from", "if", "then", "else"):
+            name = f"x{len(self.atoms) + 1}"
+        self.names.add(name)
+        self.atoms.append((e, name, typ, text))
+        return name
+
+    def numeric(self, e):
+        k = e[0]
+        if k == "num":
+            return True
+        if k == "int":
+            return None
+        if k == "bin" and e[1] in ARITH:
+            a, b = self.numeric(e[2]), self.numeric(e[3])
+            return True if (a or b) else (False if (a is False or b is False) else None)
+        if k == "un" and e[1] == "-":
+            return self.numeric(e[2])
+        if k == "call" and e[1] in ("sqrt", "exp", "log", "log10", "fabs", "pow", "G", "GP", "under"):
+            return True
+        if k == "ite":
+            a, b = self.numeric(e[2]), self.numeric(e[3])
+            return True if (a or b) else (False if (a is False and b is False) else None)
+        if k == "bin" and (e[1] in REL or e[1] in ("&&", "||")):
+            return False
+        if k == "un" and e[1] == "!":
+            return False
+        return not NONNUM.search(render(e))
+
+    def num(self, e):
+        k = e[0]
+        if id(e) in self.cuts:
+            return self.atom(e, "α")
+        if k == "num":
+            return lit_of(e[1])
+        if k == "int":
+            return lit_of(str(e[1]))
+        if k == "bin" and e[1] in ARITH:
+            return f"({self.num(e[2])} {e[1]} {self.num(e[3])})"
+        if k == "un" and e[1] == "-":
+            return f"(-{self.num(e[2])})"
+        if k == "call" and e[1] in FUNS and len(e) == 3:
+            return f"({FUNS[e[1]]} {self.num(e[2])})"
+        if k == "call" and e[1] == "fabs":
+            return f"({self.home}.absv {self.num(e[2])})"
+        if k == "call" and e[1] in ("G", "GP") and self.home == "Pitzer":
+            return f"(Pitzer.{e[1]} {self.num(e[2])})"
+        if k == "call" and e[1] == "pow" and e[3][0] == "num" and e[3][1] == 2.0:
+            x = self.num(e[2])
+            return f"({x} * {x})"                                  # pow(x, 2.0) is x * x
+        if k == "call" and e[1] == "pow" and e[3][0] == "num" and e[3][1] == 1.5:
+            x = self.num(e[2])
+            return f"({x} * (sqrt {x}))"                           # pow(x, 1.5) is x * sqrt x
+        if k == "call" and e[1] == "pow":
+            return f"(Pitzer.powf {self.num(e[2])} {self.num(e[3])})"
+        if k == "ite":
+            c = e[1]
+            neg = False
+            if c[0] == "bin" and c[1] == "!=" and self.cmp_numeric(c):
+                c, neg = T("bin", "==", c[2], c[3]), True
+            a, b = (e[3], e[2]) if neg else (e[2], e[3])
+            return f"(if {self.cond(c)} then {self.num(a)} else {self.num(b)})"
+        return self.atom(e, "α")
+
+    def cmp_numeric(self, c):
+        a, b = self.numeric(c[2]), self.numeric(c[3])
+        return a is not False and b is not False and (a or b)
+
+    def pure_bool(self, e):
+        """a condition without numeric comparison anywhere: becomes one Bool parameter"""
+        k = e[0]
+        if k == "bin" and e[1] in ("&&", "||"):
+            return self.pure_bool(e[2]) and self.pure_bool(e[3])
+        if k == "un" and e[1] == "!":
+            return self.pure_bool(e[2])
+        if k == "bin" and e[1] in REL:
+            return not self.cmp_numeric(e)
+        return True
+
+    def cond(self, e):
+        k = e[0]
+        if self.pure_bool(e):
+            return f"{self.atom(e, 'Bool')} = true"
+        if k == "bin" and e[1] == "&&":
+            return f"({self.cond(e[2])} ∧ {self.cond(e[3])})"
+        if k == "bin" and e[1] == "||":
+            return f"({self.cond(e[2])} ∨ {self.cond(e[3])})"
+        if k == "un" and e[1] == "!":
+            return f"(¬ {self.cond(e[2])})"
+        if k == "bin" and e[1] in REL:
+            a, b = self.num(e[2]), self.num(e[3])
+            op = e[1]
+            if op == "<":
+                return f"{a} < {b}"
+            if op == "<=":
+                return f"{a} ≤ {b}"
+            if op == ">":
+                return f"{b} < {a}"
+            if op == ">=":
+                return f"{b} ≤ {a}"
+            zero = e[3][0] in ("num", "int") and float(e[3][1]) == 0.0
+            z = f"{self.home}.isZero {a}" if zero else f"{self.home}.isZero ({a} - {b})"
+            return f"{z} = true" if op == "==" else f"(¬ ({z} = true))"
+        raise Shape(f"gen_pitzer: cannot express condition {render(e)[:80]}")
+
+    def nat(self, e):
+        return self.atom(e, "Nat")
+
+    def header(self, name, ret):
+        doc = "; ".join(f"{n} = {t if len(t) < 160 else t[:157] + '...'}" for _, n, _, t in self.atoms)
+        ps = " ".join(f"({n} : {t})" for _, n, t, _ in self.atoms)
+        return (f"/-- atoms: {doc} -/\n" if doc else "") + \
+            f"def {name} {{α : Type}} [NumOps α] [∀ a b : α, Decidable (a < b)] [∀ a b : α, Decidable (a ≤ b)] {ps} : {ret} :="
+
+
+def emit_num(name, tree, home, cuts=None):
+    em = LeanEmit(home, cuts)
+    body = em.num(tree)
+    return em.header(name, "α") + "\n  " + body + "\n", [(n, t, txt) for _, n, t, txt in em.atoms]
+
+
+def emit_num_shared(name, tree, home, cuts=None):
+    """like emit_num, for a DAG: a sub-tree used more than once becomes a `let`"""
+    em = LeanEmit(home, cuts)
+    uses, order, stack = {}, [], [(tree, False)]
+    while stack:
+        x, done = stack.pop()
+        if done:
+            order.append(x)
+            continue
+        if id(x) in uses:
+            uses[id(x)] += 1
+            continue
+        uses[id(x)] = 1
+        stack.append((x, True))
+        for y in reversed([y for y in x if isinstance(y, tuple)]):
+            stack.append((y, False))
+    lets = []
+    base_num = em.num
+
+    def num(e):
+        if id(e) in em.cuts and isinstance(em.cuts[id(e)], str) and em.cuts[id(e)].startswith("t_"):
+            return em.cuts[id(e)]
+        return base_num(e)
+    em.num = num
+    for x in order:
+        if x is tree or uses[id(x)] < 2:
+            continue
+        if x[0] in ("bin", "un", "call") or (x[0] == "ite" and x[1][0] == "bin" and x[1][1] in REL and not em.pure_bool(x[1])):
+            if x[0] == "bin" and x[1] not in ARITH:
+                continue
+            text = base_num(x)
+            nm = f"t_{len(lets) + 1}"
+            lets.append(f"  let {nm} := {text}")
+            em.cuts[id(x)] = nm
+    body = num(tree)
+    return em.header(name, "α") + "\n" + "\n".join(lets) + ("\n" if lets else "") + "  " + body + "\n"
+
+
+def stored(tree, idx):
+    """value a tree of stores / ites leaves at index `idx` of the array family"""
+    if tree[0] == "store" and tree[2] is idx:
+        return tree[3]
+    if tree[0] == "ite":
+        return ite(tree[1], stored(tree[2], idx), stored(tree[3], idx))
+    if tree[0] in ("prev", "fam"):
+        return T("sel", tree, idx)
+    raise Shape("gen_pitzer: store shape not recognised")
+
+
+def find_all(tree, pred):
+    out, seen, stack = [], set(), [tree]
+    while stack:
+        x = stack.pop()
+        if not isinstance(x, tuple) or id(x) in seen:
+            continue
+        seen.add(id(x))
+        if x and pred(x):
+            out.append(x)
+        stack.extend(reversed([y for y in x if isinstance(y, tuple)]))
+    return out
+
+
+def fold_of(tree, var, dom_part):
+    """the fold node that defines `var` over a domain mentioning `dom_part`"""
+    fs = find_all(tree, lambda x: x[0] == "fold" and len(x) > 5 and x[5] == var and dom_part in x[1])
+    if not fs:
+        raise Shape(f"gen_pitzer: loop over {dom_part} updating {var} not found")
+    return fs[0]
+
+
+def switch_cases(step):
+    if step[0] != "switch":
+        raise Shape("gen_pitzer: the parameter loop is not a switch over the parameter type")
+    return {c[1]: c[2] for c in step[3:]}, step[2]
+
+
+def addend(tree, prev):
+    """`tree` is prev + A, possibly under guards: -> (A, [guards]) with guard = (cond, polarity)"""
+    guards = []
+    while True:
+        if tree is prev:
+            return None, guards
+        if tree[0] == "ite":
+            if tree[3] is prev:
+                guards.append((tree[1], True))
+                tree = tree[2]
+                continue
+            if tree[2] is prev:
+                guards.append((tree[1], False))
+                tree = tree[3]
+                continue
+        if tree[0] == "bin" and tree[1] == "+" and tree[2] is prev:
+            return tree[3], guards
+        if tree[0] == "ite" and all(b[0] == "bin" and b[1] == "+" and b[2] is prev for b in (tree[2], tree[3])):
+            return T("ite", tree[1], tree[2][3], tree[3][3]), guards
+        raise Shape("gen_pitzer: accumulation shape not recognised: " + render(tree)[:120])
+
+
+def store_terms(tree, base):
+    """a chain of stores on `base`, each adding to the element it overwrites: -> [(index node, addend, guards)]"""
+    guards = []
+    while tree[0] == "ite" and (tree[3] is base or tree[2] is base):
+        if tree[3] is base:
+            guards.append((tree[1], True))
+            tree = tree[2]
+        else:
+            guards.append((tree[1], False))
+            tree = tree[3]
+    chain = []
+    while tree is not base:
+        if tree[0] != "store":
+            raise Shape("gen_pitzer: store chain not recognised: " + render(tree)[:120])
+        chain.append(tree)
+        tree = tree[1]
+    out = []
+    for st in reversed(chain):
+        arr, idx, val = st[1], st[2], st[3]
+        old = arr[3] if (arr[0] == "store" and arr[2] is idx) else T("sel", arr, idx)
+        a, g = addend(val, old)
+        if a is None:
+            raise Shape("gen_pitzer: store without addend")
+        out.append((idx, a, guards + g))
+    return out
+
+
+class ListEmit(LeanEmit):
+    def guard_text(self, guards):
+        parts = []
+        for c, pol in guards:
+            neg = False
+            if c[0] == "bin" and c[1] == "!=" and self.cmp_numeric(c):
+                c, neg = T("bin", "==", c[2], c[3]), True
+            t = self.cond(c)
+            parts.append((t, pol != neg))
+        return parts
+
+    def terms(self, name, items):
+        """items: [(index node, addend, guards)] with identical guards -> `if g then [(i, a), …] else []`"""
+        gs = [tuple((id(c), p) for c, p in g) for _, _, g in items]
+        if any(g != gs[0] for g in gs):
+            raise Shape("gen_pitzer: additions of one parameter type under different guards")
+        guards = self.guard_text(items[0][2]) if items else []
+        elems = ", ".join(f"({self.nat(i[1])}, {self.num(a)})" for i, a, _ in items)
+        body = f"[{elems}]"
+        for t, pol in reversed(guards):
+            body = f"(if {t} then {body} else [])" if pol else f"(if {t} then [] else {body})"
+        return self.header(name, "List (Nat × α)") + "\n  " + body + "\n"
+
+    def guarded_num(self, name, a, guards):
+        body = self.num(a) if a is not None else "lit 0"
+        for t, pol in reversed(self.guard_text(guards)):
+            body = f"(if {t} then {body} else lit 0)" if pol else f"(if {t} then lit 0 else {body})"
+        return self.header(name, "α") + "\n  " + body + "\n"
+
+
+PTYPES = ["TYPE_B0", "TYPE_B1", "TYPE_B2", "TYPE_C0", "TYPE_THETA", "TYPE_LAMBDA", "TYPE_ZETA", "TYPE_PSI", "TYPE_ETHETA",
+          "TYPE_MU", "TYPE_ETA"]
+
+
+def specialize(tree, scrut, label):
+    """the tree with every `switch` on `scrut` replaced by its branch for `label` (guards re-simplified)"""
+    memo = {}
+
+    def go(x):
+        if not isinstance(x, tuple) or not x:
+            return x
+        r = memo.get(id(x))
+        if r is not None:
+            return r
+        if x[0] == "switch" and x[1] is scrut:
+            r = x[2]
+            for c in x[3:]:
+                if c[1] == label:
+                    r = c[2]
+            r = go(r)
+        elif x[0] == "ite":
+            r = ite(go(x[1]), go(x[2]), go(x[3]))
+        elif x[0] == "bin" and x[1] == "&&":
+            r = land(go(x[2]), go(x[3]))
+        elif x[0] == "un" and x[1] == "!":
+            r = lnot(go(x[2]))
+        elif x[0] in ("num", "int", "sym", "str", "fam", "prev"):
+            r = x
+        else:
+            r = T(*[go(y) if isinstance(y, tuple) else y for y in x])
+        memo[id(x)] = r
+        return r
+    return go(tree)
+
+
+def pitzer_defs(nf):
+    """generated definitions for pitzer(): per parameter type the additions to LGAMMA / OSMOT / CSUM / F, the Debye-Hueckel
+    start values, COSMOT and AW"""
+    out = []
+    cos = nf["COSMOT"]
+    lgf = fold_of(nf["LGAMMA[]"], "LGAMMA[]", "param_list")
+    if lgf[3][0] != "switch":
+        raise Shape("gen_pitzer: the parameter loop is not a switch over the parameter type")
+    scrut = lgf[3][1]
+    labels = sorted(c[1] for c in lgf[3][3:])
+    prevL = T("prev", "LGAMMA[]", 1)
+    folds = find_all(T("seq", nf["LGAMMA[]"], cos), lambda x: x[0] == "fold" and "param_list" in x[1])
+    osf = [f for f in find_all(cos, lambda x: x[0] == "fold" and "param_list" in x[1])][0]
+    rest = [f for f in folds if f is not lgf and f is not osf]
+    csf = [f for f in rest if f[2] is T("num", 0.0)]
+    ffs = [f for f in rest if f[2] is not T("num", 0.0)]
+    if len(csf) != 1 or not (1 <= len(ffs) <= 3):
+        raise Shape("gen_pitzer: the CSUM / F loops were not recognised")
+    fvar_seen = None
+    for t in labels:
+        short = t[5:].lower()
+        em = ListEmit("Pitzer")
+        out.append(em.terms(f"pz_ln_{short}", store_terms(specialize(lgf[3], scrut, t), prevL)))
+        em = ListEmit("Pitzer")
+        a, g = addend(specialize(osf[3], scrut, t), T("prev", osf[5], 1))
+        out.append(em.guarded_num(f"pz_os_{short}", a, g))
+        em = ListEmit("Pitzer")
+        a, g = addend(specialize(csf[0][3], scrut, t), T("prev", csf[0][5], 1))
+        out.append(em.guarded_num(f"pz_csum_{short}", a, g))
+        fv = None
+        for f in ffs:
+            a, g = addend(specialize(f[3], scrut, t), T("prev", f[5], 1))
+            if fv is not None and (a is not fv[0] or len(g) != len(fv[1])):
+                raise Shape("gen_pitzer: F, F1, F2 receive different additions")
+            fv = (a, g)
+        em = ListEmit("Pitzer")
+        out.append(em.guarded_num(f"pz_fvar_{short}", fv[0], fv[1]))
+    uniq = []
+    for f in ffs:
+        if not any(f[2] is u for u in uniq):
+            uniq.append(f[2])
+    uniq.sort(key=lambda e: len(render(e)))
+    for k, init in enumerate(uniq):
+        out.append(emit_num(f"pz_f_init{k}", init, "Pitzer")[0])
+    out.append(emit_num("pz_osmot_init", osf[2], "Pitzer")[0])
+    osum = [f for f in find_all(cos, lambda x: x[0] == "fold" and "s_list" in x[1] and x[2] is T("num", 0.0))]
+    cuts = {id(osf): "osmot"}
+    if len(osum) == 1:
+        cuts[id(osum[0])] = "osum"
+    out.append(emit_num("pz_cosmot", cos, "Pitzer", cuts)[0])
+    out.append(emit_num("pz_aw", nf["AW"], "Pitzer", cuts)[0])
+    return out
+
+
+def sit_defs(nf):
+    """generated definitions for sit(): per parameter type the additions to sit_LGAMMA and the update of OSMOT, the
+    Debye-Hueckel F and start value of OSMOT, COSMOT and AW"""
+    out = []
+    cos = nf["COSMOT"]
+    lgf = fold_of(nf["sit_LGAMMA[]"], "sit_LGAMMA[]", "param_list")
+    scrut = lgf[3][1]
+    labels = sorted(c[1] for c in lgf[3][3:])
+    if labels != ["TYPE_SIT_EPSILON", "TYPE_SIT_EPSILON_MU"]:
+        raise Shape("gen_pitzer: sit(): parameter types not recognised")
+    osf = find_all(cos, lambda x: x[0] == "fold" and "param_list" in x[1])[0]
+    prevO = T("prev", osf[5], 1)
+    for t, short in (("TYPE_SIT_EPSILON", "eps"), ("TYPE_SIT_EPSILON_MU", "eps1")):
+        em = ListEmit("Pitzer")
+        out.append(em.terms(f"sit_ln_{short}", store_terms(specialize(lgf[3], scrut, t), T("prev", "sit_LGAMMA[]", 1))))
+        out.append(emit_num(f"sit_os_{short}", specialize(osf[3], scrut, t), "Pitzer", {id(prevO): "acc"})[0])
+    out.append(emit_num("sit_osmot_init", osf[2], "Pitzer")[0])
+    # F: the ion loop adds z0 * z0 * F
+    ionf = fold_of(nf["sit_LGAMMA[]"], "sit_LGAMMA[]", "ion_list")
+    (idx, a, g), = store_terms(ionf[3], T("prev", "sit_LGAMMA[]", 1))
+    out.append(emit_num("sit_ion_add", a, "Pitzer")[0])
+    osum = [f for f in find_all(cos, lambda x: x[0] == "fold" and "s_list" in x[1] and x[2] is T("num", 0.0))]
+    cuts = {id(osf): "osmot"}
+    if len(osum) == 1:
+        cuts[id(osum[0])] = "osum"
+    out.append(emit_num("sit_cosmot", cos, "Pitzer", cuts)[0])
+    out.append(emit_num("sit_aw", nf["AW"], "Pitzer", cuts)[0])
+    return out
+
+
+def gammas_defs(nf):
+    out = []
+    k1 = T("ix", T("sym", "$k1"))
+    cases = case_split(nf["s_x[]->lg"], {"0", "1", "2", "3", "5", "7", "8", "9"})
+    cuts = {id(nf[k]): k for k in ("a_llnl", "b_llnl", "bdot_llnl") if k in nf}
+    for lab in sorted(cases):
+        out.append(emit_num(f"lg_gflag{lab}", stored(cases[lab], k1), "Gamma", cuts)[0])
+    for k in ("a_llnl", "b_llnl", "bdot_llnl"):
+        out.append(emit_num(f"{k}_src", nf[k], "Gamma")[0])
+    return out
 
 
 if __name__ == "__main__":
-    import sys
-    if len(sys.argv) > 1:
-        for k, v in extract().items():
-            for a, b in v:
-                print(k, "|", a, "|", b)
-    else:
-        print(json.dumps(generate(), indent=1))
+    print(json.dumps(generate(), indent=1))
